@@ -20,16 +20,12 @@ sys.path.insert(0, HERE)
 sys.dont_write_bytecode = True
 
 # property -> props modules that contribute units
+_DEP = ['props.c17', 'props.c10']       # callee contracts (L1, register views, L2) are discharged as part of every dependent claim
 PROP_MODULES = {
-    'C17': ['props.c17'],
-    'C11': ['props.c11'],
-    'C18': ['props.step'],
-    'C01': ['props.step'], 'C02': ['props.step'], 'C03': ['props.step'], 'C06': ['props.step'], 'C07': ['props.step'], 'C09': ['props.step'], 'C12': ['props.c12'],
-    'C19': ['props.step'],
-    'C05': ['props.c05'],
-    'C08': ['props.c08'],
-    'C10': ['props.c10'],
-    'C04': ['props.step'],
+    'C01': ['props.step'] + _DEP, 'C02': ['props.step'] + _DEP, 'C03': ['props.step'] + _DEP, 'C04': ['props.step'] + _DEP,
+    'C05': ['props.c05'] + _DEP, 'C06': ['props.step'] + _DEP, 'C07': ['props.step'] + _DEP, 'C08': ['props.c08'] + _DEP,
+    'C09': ['props.step'] + _DEP, 'C10': ['props.c10', 'props.c17'], 'C11': ['props.c11'] + _DEP, 'C12': ['props.c12'] + _DEP,
+    'C16': ['props.c16'], 'C17': ['props.c17'], 'C18': ['props.step'] + _DEP, 'C19': ['props.step'] + _DEP,
 }
 
 REPLAY_PY = os.environ.get('VERIF_REPLAY_PYTHON', '/venv/bin/python')
@@ -55,10 +51,12 @@ def load_baseline():
 
 def collect_units(prop, tier):
     units = []
+    seen = set()
     for mn in PROP_MODULES.get(prop, []):
         mod = importlib.import_module(mn)
         for u in mod.units(tier):
-            if prop in u.props:
+            if prop in u.props and u.uid not in seen:
+                seen.add(u.uid)
                 u.module = mn
                 units.append(u)
     return units
@@ -209,7 +207,7 @@ def cmd_check(prop, tier, jobs, only=None):
     U.UNITS.clear()
     for u in units:
         U.UNITS[u.uid] = u
-    U.KNOWN[:] = [k for k in known.get('findings', []) if k.get('property') == prop]
+    U.KNOWN[:] = list(known.get('findings', []))      # regions apply by unit/kind/label whatever property is asked
     by_uid = {u.uid: u for u in units}
     results, n_cached = cached_run(units, tier, jobs)
     results.sort(key=lambda r: r['uid'])
@@ -410,7 +408,7 @@ def cmd_baseline(props, tier):
         U.UNITS.clear()
         for u in units:
             U.UNITS[u.uid] = u
-        U.KNOWN[:] = [k for k in load_known().get('findings', []) if k.get('property') == prop]
+        U.KNOWN[:] = list(load_known().get('findings', []))
         cnts = {}
         for r in U.run_units([u.uid for u in units]):
             n = sum(ob.get('count', 1) for ob in r['obligations'] if prop in (ob.get('props') or [prop]) and ob['status'] == 'proved')
